@@ -325,7 +325,7 @@ pub fn record(a: &HashMap<String, String>) -> i32 {
     let inputs = a.get("inputs");
     let mut rng = Rng::new(seed);
     let max_ids: usize = a.get("maxids").and_then(|s| s.parse().ok()).unwrap_or(4);
-    let cfg = GenCfg { conn_kind: kind, space_isolated: respace_mode, max_ids, ..Default::default() };
+    let cfg = GenCfg { conn_kind: kind, space_isolated: respace_mode, max_ids, overfull: !respace_mode, ..Default::default() };
     let mut evs = vec![];
     let mut ins = vec![];
     for _ in 0..n {
